@@ -78,8 +78,11 @@ static void variant(TNode& nd, Rng& r, Out& out) {
     } else if (nd.tag == "R" || nd.tag == "L") {
         TSeq& s = nd.seqs[0];
         // only rings that are closed by an identical copy are rotated (the closing copy is regenerated)
-        if (seqClosed(s) && s.pts.front() == s.pts.back()) { if (r.chance(70)) rotateRing(s, r, out); }
-        if (r.chance(50)) reverseSeq(s, out);
+        // a line closed in XY whose closing point is not an identical copy (different Z/M or -0/+0) is left alone:
+        // normalisation replaces that point by a copy of the new first point, so it is not a "ring direction" variant
+        bool closedXY = seqClosed(s), identical = closedXY && s.pts.front() == s.pts.back();
+        if (identical && r.chance(70)) rotateRing(s, r, out);
+        if ((!closedXY || identical) && r.chance(50)) reverseSeq(s, out);
     } else if (nd.tag == "P" || nd.tag == "C") {
     } else if (nd.tag == "K" || nd.tag == "U") {
     } else {
@@ -185,6 +188,223 @@ static void streamNormalize(Ctx& cx, Rng& r, long n, Out& out) {
     }
 }
 
+
+// ---------------------------------------------------------------- construct stream
+struct XY { double x, y; };
+static std::string ptTok(const XY& p) { return hex(p.x) + " " + hex(p.y); }
+static std::string seqTok(const std::vector<XY>& v) { std::string s = "xy " + std::to_string(v.size()); for (auto& p : v) s += " " + ptTok(p); return s; }
+static std::string polyTok(const std::vector<std::vector<XY>>& rings) { std::string s = "Y " + std::to_string(rings.size()); for (auto& r : rings) s += " " + seqTok(r); return s; }
+
+// a random similarity with "irrational-looking" doubles: scale 10^k, rotation, translation
+struct Sim { double a, b, tx, ty; bool id;
+    XY operator()(const XY& p) const { if (id) return p; return XY{a * p.x - b * p.y + tx, b * p.x + a * p.y + ty}; } };
+static Sim randomSim(Rng& r, bool grid) {
+    Sim s; s.id = grid; s.a = 1; s.b = 0; s.tx = 0; s.ty = 0;
+    if (grid) return s;
+    double mag = std::pow(10.0, r.range(-3, 6)); double th = r.unit() * 6.283185307179586;
+    s.a = mag * std::cos(th); s.b = mag * std::sin(th); s.tx = (r.unit() - 0.5) * mag * std::pow(10.0, r.range(0, 3)); s.ty = (r.unit() - 0.5) * mag * std::pow(10.0, r.range(0, 3));
+    return s;
+}
+// primitive lattice directions sorted counter-clockwise (exact integer angle sort)
+static std::vector<XY> latticeDirs(int m) {
+    std::vector<XY> d;
+    for (int x = -m; x <= m; x++) for (int y = -m; y <= m; y++) { if (!x && !y) continue; int a = std::abs(x), b = std::abs(y); while (b) { int t = a % b; a = b; b = t; } if (a == 1) d.push_back(XY{(double) x, (double) y}); }
+    auto half = [](const XY& p) { return (p.y > 0 || (p.y == 0 && p.x > 0)) ? 0 : 1; };
+    std::sort(d.begin(), d.end(), [&](const XY& p, const XY& q) { int hp = half(p), hq = half(q); if (hp != hq) return hp < hq; return p.x * q.y - p.y * q.x > 0; });
+    return d;
+}
+// star-shaped ring around the origin: distinct rays in angular order, integer radii multipliers; closed
+static std::vector<XY> starRing(Rng& r, int n, int dirM, int rmin, int rmax, bool cw) {
+    static std::map<int, std::vector<XY>> cache; if (!cache.count(dirM)) cache[dirM] = latticeDirs(dirM);
+    const auto& dirs = cache[dirM];
+    std::vector<size_t> idx; size_t step = dirs.size() / (size_t) n; size_t off = r.below(dirs.size());
+    for (int i = 0; i < n; i++) idx.push_back((off + (size_t) i * step + r.below(step ? step : 1)) % dirs.size());
+    std::sort(idx.begin(), idx.end()); idx.erase(std::unique(idx.begin(), idx.end()), idx.end());
+    std::vector<XY> ring; for (auto i : idx) { int k = r.range(rmin, rmax); ring.push_back(XY{dirs[i].x * k, dirs[i].y * k}); }
+    if (cw) std::reverse(ring.begin(), ring.end());
+    ring.push_back(ring.front());
+    return ring;
+}
+static std::vector<XY> mapRing(const std::vector<XY>& v, const Sim& s, double dx = 0, double dy = 0) { std::vector<XY> o; for (auto& p : v) o.push_back(s(XY{p.x + dx, p.y + dy})); if (o.size() > 1) o.back() = o.front(); return o; }
+
+struct CGen {
+    Rng& r; Out& out; bool grid = true; Sim sim{1, 0, 0, 0, true};
+    CGen(Rng& rr, Out& o) : r(rr), out(o) {}
+    XY gp(int span) { return XY{(double) r.range(-span, span), (double) r.range(-span, span)}; }
+    std::string points(int kind) {  // MultiPoint
+        std::vector<XY> v; int n = r.range(1, 12);
+        switch (kind) {
+        case 0: { int span = r.chance(50) ? 4 : 30; for (int i = 0; i < n; i++) v.push_back(gp(span)); out.count("in_points_random"); break; }
+        case 1: { XY a = gp(10), d = gp(3); if (d.x == 0 && d.y == 0) d.x = 1; for (int i = 0; i < n; i++) { int k = r.range(-6, 6); v.push_back(XY{a.x + k * d.x, a.y + k * d.y}); } out.count("in_points_collinear"); break; }
+        case 2: { XY a = gp(20); for (int i = 0; i < n; i++) v.push_back(a); out.count("in_points_all_equal"); break; }
+        case 3: { static const int C[12][2] = {{5,0},{-5,0},{0,5},{0,-5},{3,4},{-3,4},{3,-4},{-3,-4},{4,3},{-4,3},{4,-3},{-4,-3}};
+                  int k = r.range(1, 3); for (int i = 0; i < n; i++) { int j = (int) r.below(12); v.push_back(XY{(double) C[j][0] * k, (double) C[j][1] * k}); }
+                  if (r.chance(50)) v.push_back(gp(2)); out.count("in_points_cocircular"); break; }
+        default: { int w = r.range(1, 9), h = r.chance(40) ? w : r.range(1, 9); v = {XY{0,0}, XY{(double) w,0}, XY{(double) w,(double) h}, XY{0,(double) h}};
+                  for (int i = 0; i < n / 2; i++) v.push_back(XY{(double) r.range(0, w), (double) r.range(0, h)}); out.count("in_points_rectangle"); }
+        }
+        std::string s = "MP " + std::to_string(v.size());
+        for (auto& p : v) s += " P xy 1 " + ptTok(sim(p));
+        return s;
+    }
+    std::string line(int kind) {
+        std::vector<XY> v; int n = r.range(2, 8);
+        if (kind == 0) { for (int i = 0; i < n; i++) v.push_back(gp(12)); out.count("in_line_random"); }
+        else if (kind == 1) { XY a = gp(10); for (int i = 0; i < n; i++) v.push_back(a); out.count("in_line_zero_length"); }
+        else if (kind == 2) { XY a = gp(10), d = gp(3); if (d.x == 0 && d.y == 0) d.y = 1; for (int i = 0; i < n; i++) { int k = r.range(-5, 5); v.push_back(XY{a.x + k * d.x, a.y + k * d.y}); } out.count("in_line_collinear"); }
+        else { for (int i = 0; i < n; i++) v.push_back(gp(12)); v.push_back(v.front()); out.count("in_line_closed"); }
+        std::vector<XY> w; for (auto& p : v) w.push_back(sim(p));
+        return "L " + seqTok(w);
+    }
+    // valid-by-construction star polygon (checked with isValid by the caller), optional hole near the centre
+    std::string polygon(double dx, double dy, bool allowHole) {
+        // the shell must be star-shaped around the origin (every angular gap < 180 degrees) and keep a disc of
+        // radius > 1.5 around it free, so that the hole (radius <= sqrt 2) lies strictly inside
+        std::vector<XY> shell; bool roomy = false;
+        for (int attempt = 0; attempt < 20; attempt++) {
+            shell = starRing(r, r.range(3, 9), 4, 6, 12, false);
+            bool star = shell.size() >= 4; roomy = true;
+            for (size_t i = 0; star && i + 1 < shell.size(); i++) {
+                const XY& a = shell[i]; const XY& b = shell[i + 1];
+                double cr = a.x * b.y - a.y * b.x;            // exact: small integers
+                if (cr <= 0) star = false;
+                double l2 = (b.x - a.x) * (b.x - a.x) + (b.y - a.y) * (b.y - a.y);
+                if (cr * cr <= 2.25 * l2) roomy = false;
+            }
+            if (star) break;
+            shell.clear();
+        }
+        if (shell.empty()) { shell = {XY{8, 0}, XY{0, 8}, XY{-8, 0}, XY{0, -8}, XY{8, 0}}; roomy = true; }
+        if (r.chance(50)) std::reverse(shell.begin(), shell.end());
+        allowHole = allowHole && roomy;
+        std::vector<std::vector<XY>> rings; rings.push_back(mapRing(shell, sim, dx, dy));
+        if (allowHole && r.chance(35)) { std::vector<XY> hole = starRing(r, r.range(3, 5), 1, 1, 1, r.chance(50)); rings.push_back(mapRing(hole, sim, dx, dy)); out.count("in_polygon_with_hole"); }
+        out.count("in_polygon_star");
+        return polyTok(rings);
+    }
+    std::string flatPolygon() {   // zero-area polygons (grid only)
+        std::vector<XY> v; XY a = gp(10), d = gp(3); if (d.x == 0 && d.y == 0) d.x = 1;
+        int n = r.range(2, 5); for (int i = 0; i < n; i++) { int k = r.range(-5, 5); v.push_back(XY{a.x + k * d.x, a.y + k * d.y}); }
+        if (r.chance(20)) for (auto& p : v) p = a;
+        v.push_back(v.front()); if (v.size() < 3) v.push_back(v.front());
+        out.count("in_polygon_zero_area");
+        std::vector<XY> w; for (auto& p : v) w.push_back(sim(p));
+        return polyTok({w});
+    }
+    std::string empty() { static const char* E[] = {"P xy 0", "L xy 0", "Y 1 xy 0", "MP 0", "ML 0", "MY 0", "GC 0"}; out.count("in_empty"); return E[r.below(7)]; }
+    std::string any(int depth) {
+        switch (r.below(depth > 0 ? 9 : 12)) {
+        case 0: case 1: return points((int) r.below(5));
+        case 2: return line((int) r.below(4));
+        case 3: case 4: return polygon(0, 0, true);
+        case 5: return grid ? flatPolygon() : polygon(0, 0, false);
+        case 6: return empty();
+        case 7: { std::string s = "P xy 1 " + ptTok(sim(gp(15))); out.count("in_point"); return s; }
+        case 8: { int k = r.range(1, 3); std::string s = "MY " + std::to_string(k); for (int i = 0; i < k; i++) s += " " + polygon(40.0 * i, 0, true); out.count("in_multipolygon"); return s; }
+        case 9: { int k = r.range(1, 3); std::string s = "ML " + std::to_string(k); for (int i = 0; i < k; i++) s += " " + line((int) r.below(4)); out.count("in_multiline"); return s; }
+        default: { int k = r.range(1, 4); std::string s = "GC " + std::to_string(k); for (int i = 0; i < k; i++) s += " " + any(depth + 1); out.count("in_collection_mixed"); return s; }
+        }
+    }
+};
+
+static std::string geomOrErr(GEOSGeometry* g) { if (!g) return "err"; std::string s = dumpGeom((const Geometry*) g); delete (Geometry*) g; return s; }
+
+static std::string constructCase(Ctx& cx, const std::string& kind, const std::string& gl, bool& ok) {
+    std::unique_ptr<Geometry> g;
+    try { g = buildGeom(gl, cx.gf.get()); } catch (std::exception&) { ok = false; return ""; }
+    const GEOSGeometry* cg = (const GEOSGeometry*) g.get();
+    std::string c = "K " + kind + " | G " + gl;
+    c += " | H " + geomOrErr(GEOSConvexHull_r(cx.h, cg));
+    c += " | E " + geomOrErr(GEOSEnvelope_r(cx.h, cg));
+    c += " | C " + geomOrErr(GEOSGetCentroid_r(cx.h, cg));
+    { GEOSGeometry* p = GEOSPointOnSurface_r(cx.h, cg); char v = GEOSisValid_r(cx.h, cg);
+      c += " | S " + (p ? geomOrErr(p) + " " + (v == 1 ? "1" : "0") : std::string("err")); }
+    { // minimum bounding circle: support points from the C++ class, radius/centre from the C API
+        std::string b;
+        try {
+            geos::algorithm::MinimumBoundingCircle mbc(g.get());
+            std::vector<CoordinateXY> sup = mbc.getExtremalPoints();
+            double radius = 0; GEOSGeometry* centre = nullptr;
+            GEOSGeometry* circ = GEOSMinimumBoundingCircle_r(cx.h, cg, &radius, &centre);
+            if (!circ) b = "err";
+            else {
+                b = std::to_string(sup.size()); for (auto& p : sup) b += " " + hex(p.x) + " " + hex(p.y);
+                b += " R " + hex(radius);
+                const Geometry* cp = (const Geometry*) centre;
+                const CoordinateXY* q = (cp && !cp->isEmpty()) ? cp->getCoordinate() : nullptr;
+                if (q && !std::isnan(q->x) && !std::isnan(q->y)) b += " " + hex(q->x) + " " + hex(q->y); else b += " none";
+                delete (Geometry*) circ; if (centre) delete (Geometry*) centre;
+            }
+        } catch (std::exception&) { b = "err"; }
+        c += " | B " + b;
+    }
+    c += " | M " + geomOrErr(GEOSMinimumRotatedRectangle_r(cx.h, cg));
+    c += " | W " + geomOrErr(GEOSMinimumWidth_r(cx.h, cg));
+    ok = true; return c;
+}
+
+static void streamConstruct(Ctx& cx, Rng& r, long n, Out& out) {
+    for (long i = 0; i < n; i++) {
+        CGen gen(r, out); gen.grid = r.chance(55); gen.sim = randomSim(r, gen.grid);
+        out.count(gen.grid ? "coords_grid" : "coords_full_precision");
+        std::string gl = "0 " + gen.any(0);
+        bool ok = false; std::string c = constructCase(cx, gen.grid ? "grid" : "full", gl, ok);
+        if (!ok) { out.count("rejected_by_constructor"); continue; }
+        if (c.find(" err") != std::string::npos) out.count("impl_operation_error");
+        out.emit(c, "ok");
+    }
+}
+
+
+// ---------------------------------------------------------------- invariants stream
+static std::string invariantsCase(Ctx& cx, const std::string& kind, const std::string& gl, bool& ok) {
+    std::unique_ptr<Geometry> g;
+    try { g = buildGeom(gl, cx.gf.get()); } catch (std::exception&) { ok = false; return ""; }
+    const GEOSGeometry* cg = (const GEOSGeometry*) g.get();
+    GEOSGeometry* rev = GEOSReverse_r(cx.h, cg);
+    GEOSGeometry* rr = rev ? GEOSReverse_r(cx.h, rev) : nullptr;
+    GEOSGeometry* cl = GEOSGeom_clone_r(cx.h, cg);
+    GEOSGeometry* nm = GEOSGeom_clone_r(cx.h, cg);
+    if (nm && GEOSNormalize_r(cx.h, nm) != 0) { delete (Geometry*) nm; nm = nullptr; }
+    auto dump = [](GEOSGeometry* x) { return x ? dumpGeom((const Geometry*) x) : std::string("err"); };
+    std::string c = "I " + kind + " | G " + gl + " | R " + dump(rev) + " | RR " + dump(rr) + " | N " + dump(nm) + " | CL " + dump(cl);
+    const GEOSGeometry* four[4] = {cg, rev, nm, cl};
+    std::string A = " | A", L = " | L", NP = " | NP", NG = " | NG", D = " | D";
+    for (int i = 0; i < 4; i++) {
+        if (!four[i]) { A += " x"; L += " x"; NP += " x"; NG += " x"; D += " x"; continue; }
+        double a = 0, l = 0;
+        A += (GEOSArea_r(cx.h, four[i], &a) == 1) ? " " + hex(a) : std::string(" x");
+        L += (GEOSLength_r(cx.h, four[i], &l) == 1) ? " " + hex(l) : std::string(" x");
+        NP += " " + std::to_string(GEOSGetNumCoordinates_r(cx.h, four[i]));
+        NG += " " + std::to_string(GEOSGetNumGeometries_r(cx.h, four[i]));
+        D += " " + std::to_string(GEOSGeom_getDimensions_r(cx.h, four[i]));
+    }
+    c += A + L + NP + NG + D + " | X";
+    const GEOSGeometry* others[3] = {cl, rev, nm};
+    for (int i = 0; i < 3; i++) c += others[i] ? " " + std::to_string((int) GEOSEqualsExact_r(cx.h, cg, others[i], 0.0)) : std::string(" x");
+    for (int i = 0; i < 3; i++) c += others[i] ? " " + std::to_string((int) GEOSEqualsIdentical_r(cx.h, cg, others[i])) : std::string(" x");
+    for (GEOSGeometry* x : {rev, rr, cl, nm}) if (x) delete (Geometry*) x;
+    ok = true; return c;
+}
+
+static void streamInvariants(Ctx& cx, Rng& r, long n, Out& out) {
+    for (long i = 0; i < n; i++) {
+        GenCfg cfg; cfg.weird = false; cfg.mixedDims = false; cfg.maxDepth = 2; cfg.maxPts = 7;
+        cfg.gridInts = r.chance(55); cfg.curves = r.chance(8);
+        out.count(cfg.gridInts ? "coords_grid" : "coords_full_precision");
+        GTreeGen gen(r, cfg, &out);
+        std::string base = gen.geom();
+        auto v = splitToks(base); Toks tk(v); int srid = std::stoi(tk.next());
+        TNode root;
+        try { root = parseNode(tk); } catch (std::exception&) { out.count("gen_unparsable"); continue; }
+        degenerate(root, r, out);
+        bool ok = false; std::string c = invariantsCase(cx, cfg.gridInts ? "grid" : "full", lineOf(srid, root), ok);
+        if (!ok) { out.count("rejected_by_constructor"); continue; }
+        if (c.find("| N err") != std::string::npos) out.count("impl_normalize_unsupported");
+        out.emit(c, "ok");
+    }
+}
+
 // ---------------------------------------------------------------- main
 int main(int argc, char** argv) {
     if (argc < 4) { std::fprintf(stderr, "usage: c20 <stream> <seed> <n> <outbase> | c20 replay <stream> <file>\n"); return 2; }
@@ -198,6 +418,17 @@ int main(int argc, char** argv) {
             if (st == "normalize") {
                 bool ok = false; std::string e = normalizeGroup(cx, splitBar(line, 1), ok);
                 std::cout << (ok ? e : std::string("rejected")) << "\n";
+            } else if (st == "construct") {
+                // only the "K kind | G geom" part of the line is used; everything else is recomputed
+                auto secs = splitBar(line, 0); std::string kind = "grid", gl;
+                for (auto& sct : secs) { if (sct.rfind("K ", 0) == 0) kind = sct.substr(2); if (sct.rfind("G ", 0) == 0) gl = sct.substr(2); }
+                bool ok = false; std::string c = constructCase(cx, kind, gl, ok);
+                std::cout << (ok ? c : std::string("rejected")) << "\n";
+            } else if (st == "invariants") {
+                auto secs = splitBar(line, 0); std::string kind = "grid", gl;
+                for (auto& sct : secs) { if (sct.rfind("I ", 0) == 0) kind = sct.substr(2); if (sct.rfind("G ", 0) == 0) gl = sct.substr(2); }
+                bool ok = false; std::string c = invariantsCase(cx, kind, gl, ok);
+                std::cout << (ok ? c : std::string("rejected")) << "\n";
             } else { std::cout << "unknown-stream\n"; bad = 1; }
         }
         GEOS_finish_r(cx.h); return bad;
@@ -207,6 +438,8 @@ int main(int argc, char** argv) {
     {
         Out out(argv[4]); Rng r(seed);
         if (stream == "normalize") streamNormalize(cx, r, n, out);
+        else if (stream == "construct") streamConstruct(cx, r, n, out);
+        else if (stream == "invariants") streamInvariants(cx, r, n, out);
         else { std::fprintf(stderr, "unknown stream %s\n", stream.c_str()); return 2; }
     }
     GEOS_finish_r(cx.h);
